@@ -21,7 +21,7 @@ else:
         confj = {"raw": conf[-500:]}
 assert confj.get("confirmed"), confj
 meta = {"breaks_property": pid, "needs_to_manifest": needs,
-        "origin": "fresh sub-agent given only the property text and a scratch worktree of /repo at the hook commit current at the time (0156c5e up to round 7, ca2c9a6 in round 8, a890f49 in rounds 9 and 10)" + (" (second round: asked for changes that are hard to find)" if WT.endswith("wt2") else " (third round: a second pair per property, hard to find)" if WT.endswith("wt3") else " (fourth round: asked to come from an unexpected direction — a file or function the anchors do not name, or two cooperating edits)" if WT.endswith("wt4") else " (fifth round: each change had to read like a legitimate improvement — optimisation, refactoring, API modernisation or robustness fix)" if WT.endswith("wt5") or WT.endswith("wt6") else " (seventh round: the breakage had to need something specific to manifest — an interleaving, a fault at a particular point, a multi-step sequence, an unusual input or two cooperating sites — and differ in site and trigger from all earlier deliveries)" if WT.endswith("wt7") else " (eighth round: the change had to come from an indirect direction — build configuration, clap definitions, process set-up, trait impls / derives / serde attributes on the data types, a shared helper, a constant or the type of a field — not from the functions the property's anchors name)" if WT.endswith("wt8") else " (ninth round: the breakage had to sit at a boundary of the property's own quantifier — zero, empty, exactly equal, the first or the last element, nobody or everybody — where the change still reads like a tidy-up)" if WT.endswith("wt9") else " (tenth round: the breakage had to sit in how a result is carried to the user — file, listing, log line, exit status, API value — with the computation untouched, or in the swap of a container / order / numeric type that is equivalent except under ties, duplicates or repeated keys)" if WT.endswith("wt10") else ""),
+        "origin": "fresh sub-agent given only the property text and a scratch worktree of /repo at the hook commit current at the time (0156c5e up to round 7, ca2c9a6 in round 8, a890f49 in rounds 9 to 11)" + (" (second round: asked for changes that are hard to find)" if WT.endswith("wt2") else " (third round: a second pair per property, hard to find)" if WT.endswith("wt3") else " (fourth round: asked to come from an unexpected direction — a file or function the anchors do not name, or two cooperating edits)" if WT.endswith("wt4") else " (fifth round: each change had to read like a legitimate improvement — optimisation, refactoring, API modernisation or robustness fix)" if WT.endswith("wt5") or WT.endswith("wt6") else " (seventh round: the breakage had to need something specific to manifest — an interleaving, a fault at a particular point, a multi-step sequence, an unusual input or two cooperating sites — and differ in site and trigger from all earlier deliveries)" if WT.endswith("wt7") else " (eighth round: the change had to come from an indirect direction — build configuration, clap definitions, process set-up, trait impls / derives / serde attributes on the data types, a shared helper, a constant or the type of a field — not from the functions the property's anchors name)" if WT.endswith("wt8") else " (ninth round: the breakage had to sit at a boundary of the property's own quantifier — zero, empty, exactly equal, the first or the last element, nobody or everybody — where the change still reads like a tidy-up)" if WT.endswith("wt9") else " (tenth round: the breakage had to sit in how a result is carried to the user — file, listing, log line, exit status, API value — with the computation untouched, or in the swap of a container / order / numeric type that is equivalent except under ties, duplicates or repeated keys)" if WT.endswith("wt10") else " (eleventh round: the breakage had to need TWO independent things at once — two options, an option and an input trait, two input traits, or an input trait and a run-time condition — each of which alone behaves as on the unchanged tree)" if WT.endswith("wt11") else ""),
         "confirmed_by": "bin/confirm_mutant.py in the scratch worktree: 35 baseline tests pass with the change, builds with --features verif, demonstration fails with the change and passes without",
         "confirmation": confj}
 json.dump(meta, open(dst + "/meta.json", "w"), indent=1)
